@@ -44,7 +44,13 @@ def enc_fiber(f):
 
 
 def root_of(t):
-    return t._root if isinstance(t, Tensor) else t
+    """the root of a tensor, read without Tensor.getRoot()'s own consistency assertion (a broken tensor must be
+    observable); falls back on the getter if the attribute is not there"""
+    if not isinstance(t, Tensor):
+        return t
+    if hasattr(t, "_root"):
+        return t._root
+    return t.getRoot()
 
 
 def snapshot(t, with_ranks=True):
